@@ -44,10 +44,15 @@ func cntFor(ctx context.Context, fallback *counters) *counters {
 }
 
 type env struct {
-	cfg *cfgVal
-	h   http.Handler
-	cnt *counters
-	reg map[string]string // full path -> kind
+	cfg  *cfgVal
+	h    http.Handler
+	hDec http.Handler // HandleServices configurations: the same services registered through a decorating Mux (writer.go)
+	cnt  *counters
+	reg  map[string]string // full path -> kind
+
+	// the last request served on the plain recorder for a comparison (writer.go)
+	baseRq  *request
+	baseObs *observation
 }
 
 func statusFrom(m *gt.Message) error {
@@ -266,6 +271,10 @@ func newEnv(cfg *cfgVal) *env {
 		}
 		httpgrpc.HandleServices(mux.HandleFunc, bp, reg, ui, si)
 		e.h = mux
+		// the same registry behind a Mux function that decorates every handler
+		dec := http.NewServeMux()
+		httpgrpc.HandleServices(decoratingMux(dec), bp, reg, ui, si)
+		e.hDec = dec
 	} else {
 		var opts []httpgrpc.ServerOption
 		if base != "" {
@@ -290,6 +299,17 @@ type observation struct {
 	Header http.Header
 	Body   []byte
 	Cnt    counters
+	Probe  probe // what went through the ResponseWriter wrapper, if the request had one (writer.go)
+	rec    *httptest.ResponseRecorder
+}
+
+// wireHeader: the headers as they were when the status line was written (what
+// goes to the wire), as opposed to Header, the recorder's live map.
+func (o *observation) wireHeader() http.Header {
+	if o.rec == nil {
+		return o.Header
+	}
+	return o.rec.Result().Header
 }
 
 func (o *observation) short() string {
@@ -312,6 +332,7 @@ type request struct {
 	CTPresent bool
 	Hdr       []hv
 	Body      []byte
+	W         *writerVal // the ResponseWriter the server is handed; nil = the plain recorder
 }
 
 // httpRequest builds the literal *http.Request.
@@ -349,21 +370,25 @@ func panicText(p interface{}) string {
 	return s
 }
 
-// do runs one request through the real handler tree on a recorder.
+// do runs one request through the real handler tree on a recorder (behind the
+// wrapper rq.W asks for).
 func (e *env) do(rq *request) (o *observation) { return e.doOrd(rq, 0) }
 
 func (e *env) doOrd(rq *request, ord int) (o *observation) {
 	*e.cnt = counters{}
 	r := rq.httpRequestOrd(context.Background(), ord)
-	rec := httptest.NewRecorder()
 	o = &observation{}
+	pr := &probe{}
 	defer func() {
 		if p := recover(); p != nil {
 			o.Panic = panicText(p)
 			o.Cnt = *e.cnt
+			o.Probe = *pr
 		}
 	}()
-	e.h.ServeHTTP(rec, r)
+	rec := e.serve(rq.W, r, pr)
+	o.Probe = *pr
+	o.rec = rec
 	o.Status = rec.Code
 	o.Header = rec.Header()
 	o.Body = rec.Body.Bytes()
@@ -373,5 +398,9 @@ func (e *env) doOrd(rq *request, ord int) (o *observation) {
 
 func (c *Case) request() *request {
 	b, _ := hex.DecodeString(c.BodyHex)
-	return &request{Method: c.Method, Path: c.Path, CT: c.CT, CTPresent: c.CTPresent, Hdr: c.Hdr, Body: b}
+	rq := &request{Method: c.Method, Path: c.Path, CT: c.CT, CTPresent: c.CTPresent, Hdr: c.Hdr, Body: b}
+	if c.Writer != "" && c.Writer != writers[0].Name {
+		rq.W = writerByName(c.Writer)
+	}
+	return rq
 }
